@@ -1002,10 +1002,11 @@ func (c *clipperBase) processHorzJoins() {
 					fixOutRecPts(or1)
 					fixOutRecPts(or2)
 					or2.owner = or1
-				} else if path1InsidePath2(or2.pts, or1.pts) {
-					or2.owner = or1
 				} else {
-					or2.owner = or1.owner
+					// inside or1, or beside it: or1 stays the starting point of the owner search, because a
+					// later split of or1 (recorded in or1.splits) may turn out to be what contains or2;
+					// recursiveCheckOwners moves on to or1's own owners when neither does
+					or2.owner = or1
 				}
 				if or1.splits == nil {
 					or1.splits = make([]int, 0)
